@@ -49,8 +49,18 @@ def build_program(schema: L.Schema, optimize: bool, endian: str, big: bool) -> T
         shutil.rmtree(d, ignore_errors=True)
 
 
+def c_prefix(schema) -> str:
+    """documented C naming: option c.name_prefix = "app_"  ->  type / function names start with App"""
+    import re
+    for o in getattr(schema, "options", None) or []:
+        m = re.match(r'\s*c\.name_prefix\s*=\s*"([^"]*)"', o)
+        if m:
+            return "".join(w[:1].upper() + w[1:] for w in m.group(1).split("_") if w)
+    return ""
+
+
 def c_struct_name(msg: L.Message) -> str:
-    return "".join(L._path(msg))
+    return c_prefix(getattr(msg, "proto", None)) + "".join(L._path(msg))
 
 
 def _collector(E: EN.Engine):
@@ -70,6 +80,11 @@ def _fill(it: CI.Interp, region, off, ctype, t: L.Ty, v, leaves, arbitrary: bool
         if not isinstance(ctype, TStruct):
             raise CI.CUnsupported("C type of message %s is %r" % (r.name, ctype))
         size, _, fields = it.T.layout(ctype.name)
+        want_name = c_struct_name(r)
+        if ctype.name != want_name:
+            # the member is declared with ANOTHER struct than the definition the schema resolves the reference to (C11 / C03)
+            E.oblige("binding%s: declared as struct %s, the schema resolves it to %s" % (path or ".", ctype.name, want_name), z3.BoolVal(False))
+            raise CI.StopRun("wrong struct bound")
         for f in r.sorted_fields():
             if f.name not in fields:
                 raise CI.CUnsupported("struct %s has no member %s" % (ctype.name, f.name))
@@ -95,6 +110,10 @@ def _read(it: CI.Interp, region, off, ctype, t: L.Ty, out, path=""):
     r = L.resolve(t)
     if isinstance(r, L.Message):
         size, _, fields = it.T.layout(ctype.name)
+        if ctype.name != c_struct_name(r):
+            EN.cur().oblige("binding%s: declared as struct %s, the schema resolves it to %s" % (path or ".", ctype.name, c_struct_name(r)),
+                            z3.BoolVal(False))
+            raise CI.StopRun("wrong struct bound")
         for f in r.sorted_fields():
             foff, ft = fields[f.name]
             _read(it, region, off + foff, ft, f.type, out, path + "." + f.name)
@@ -187,11 +206,14 @@ def run_encode(E: EN.Engine, prog: CI.Program, msg: L.Message, big: bool, label=
     m = it.alloc("*m", it.T.sizeof(st), None, kind="arg")
     leaves: list = []
     vleaves: list = []
-    v = L.fresh_value(msg, "v", vleaves, _mk(E))
+    v = L.fresh_value(msg, _vname(E, msg), vleaves, _mk(E))
     for name, term, r in vleaves:
         if isinstance(r, L.Bool):
             E.assume(L.in_range(term, r))
-    _fill(it, m, 0, st, msg, v, leaves, True, E)
+    try:
+        _fill(it, m, 0, st, msg, v, leaves, True, E)
+    except CI.StopRun:
+        return
     m.writes.clear()
     n = L.nbytes(msg)
     s = it.alloc("s", n, 0, kind="arg")
@@ -229,7 +251,7 @@ def run_decode(E: EN.Engine, prog: CI.Program, msg: L.Message, big: bool, label=
     st = TStruct(sname)
     src = sender or msg
     vleaves: list = []
-    v = L.fresh_value(src, "v", vleaves, _mk(E))
+    v = L.fresh_value(src, _vname(E, src), vleaves, _mk(E))
     for name, term, r in vleaves:
         E.assume(L.in_range(term, r))
     n = L.nbytes(src)
@@ -243,7 +265,10 @@ def run_decode(E: EN.Engine, prog: CI.Program, msg: L.Message, big: bool, label=
     except CI.StopRun:
         return
     out: list = []
-    _read(it, m, 0, st, msg, out)
+    try:
+        _read(it, m, 0, st, msg, out)
+    except CI.StopRun:
+        return
     want = project(v) if project else v
     if E.concrete is not None and not big:
         try:
@@ -262,6 +287,14 @@ def run_decode(E: EN.Engine, prog: CI.Program, msg: L.Message, big: bool, label=
     E.oblige(label + "/buffer-untouched", z3.BoolVal(not s.writes), kind="frame")
     if sender is None:
         E.oblige(label + "/reads-within-size", z3.BoolVal(all(k < L.nbytes(msg) for k in s.reads)), kind="frame")
+
+
+def _vname(E, msg) -> str:
+    """name prefix of the symbolic value of ONE run: unique per message and per run, so that the preconditions assumed for one run
+    (e.g. in-range values when decoding) never constrain another run of the same proof path whose fields happen to have the same
+    names (they did until wave 4 of the seeded changes exposed it: S1's encode was only proved for in-range x after S0's decode)"""
+    E.run_n = getattr(E, "run_n", 0) + 1              # reset by Engine.explore at the start of every path
+    return "v%d<%s>" % (E.run_n, "".join(L._path(msg)))
 
 
 def _mk(E):
@@ -328,10 +361,13 @@ def run_json(E: EN.Engine, prog: CI.Program, msg: L.Message, label="json"):
     st = TStruct(sname)
     m = it.alloc("*m", it.T.sizeof(st), None, kind="arg")
     vleaves: list = []
-    v = L.fresh_value(msg, "v", vleaves, _mk(E))
+    v = L.fresh_value(msg, _vname(E, msg), vleaves, _mk(E))
     for name, term, r in vleaves:
         E.assume(L.in_range(term, r))
-    _fill(it, m, 0, st, msg, v, [], False, E)
+    try:
+        _fill(it, m, 0, st, msg, v, [], False, E)
+    except CI.StopRun:
+        return
     m.writes.clear()
     tokens: list = []
 
